@@ -141,15 +141,15 @@ Print Assumptions pump_progress.
    its record is complete in the incoming BIO and has not been returned (finding lost-wakeup-after-recv-lock, fixed in
    /repo; witness replayed on the real transport: corpus/C08/two_readers_ files).  stuckb is a verified decision procedure
    for `stuck` (stuckb_sound). *)
-Theorem pump_progress_refuted_two_readers : forall cf,
-  let fl := {| f_recheck := false; f_skiplock := false; f_close_flush := cf |} in
+Theorem pump_progress_refuted_two_readers : forall cf lz,
+  let fl := {| f_recheck := false; f_skiplock := false; f_close_flush := cf; f_lazyread := lz |} in
   exists ls c, dexec fl Ew Dw 4 duplex0 ls = Some c /\ stuck fl Ew Dw 4 c /\
     (exists t tk, nth_error (tasks_of (dB c)) t = Some tk /\ t_meth tk = MRead /\ t_pc tk = PRecving) /\
     (exists r, parse1 Dw (i_rbio (e_ideal (dB c))) = Some r) /\
     e_got (dB c) <> e_written (dA c).
 Proof.
-  intros cf fl. destruct (two_readers_stuck cf) as [c [Hx [Hs [Hu [Hg [Hw Ht]]]]]].
-  exists two_readers_trace, c. split; [exact Hx |]. split; [apply stuckb_sound; exact Hs |].
+  intros cf lz fl. destruct (two_readers_stuck cf lz) as [c [Hx [Hs [Hu [Hg [Hw Ht]]]]]].
+  exists (two_readers_trace lz), c. split; [exact Hx |]. split; [apply stuckb_sound; exact Hs |].
   clear Hx Hs. split.
   - destruct (tasks_of (dB c)) as [| t0 [| t1 [| t2 rest]]]; try (cbn in Ht; discriminate Ht).
     exists 2, t2. cbn in Ht. inversion Ht. cbn. auto.
@@ -177,11 +177,36 @@ Theorem send_lock_taken_for_nothing_refuted : forall (fl : flags) m b s x,
   (a_out x = SWantRead ->
      step fl m b s PCall (LSsl x) = Some (set_wbio s [], PFlush (KRead (feeds s)), []) /\
      (send_lock s = true -> go fl m (set_wbio s []) (PFlush (KRead (feeds s))) = None)) /\
-  (forall v bt, a_out x = SOk v -> m <> MWrite ->
+  (forall v bt, a_out x = SOk v -> m <> MWrite -> f_lazyread fl = false ->
      step fl m b s PCall (LSsl x) = Some (set_wbio s [], PFlush (KRet v), []) /\
      step fl m b (set_wbio s []) (PFlush (KRet v)) (LT (TCancel bt)) = Some (set_wbio s [], PEnd (RCancel bt), [])).
 Proof. exact send_lock_taken_for_nothing. Qed.
 Print Assumptions send_lock_taken_for_nothing_refuted.
+
+(* (iii-d) a successful read and ciphertext of OTHER tasks pending in the outgoing BIO (finding
+   cancelled-recv-loses-plaintext-behind-pending-ciphertext: a send_all queued behind a send_all parked by back-pressure
+   has left its records in the BIO; reproduced on the real transport with real OpenSSL, corpus/C08/cancel-read-pending-bio_ files).
+   With meta/fixes/C08_read_result_without_checkpoint.diff (f_lazyread = true): in EVERY state, whatever is pending and
+   whoever holds the locks, ssl_object.read() -> bytes is followed by the return: no lock acquisition, no transport call,
+   no point at which a cancellation can be delivered (a read that returned plaintext never queues on the send lock). *)
+Theorem read_result_returned_at_once : forall (fl : flags) b s x v,
+  f_lazyread fl = true -> a_meth x = MRead -> a_arg x = expected_arg MRead b s -> a_out x = SOk v ->
+  step fl MRead b s PCall (LSsl x) = Some (set_wbio s (wbio s ++ a_wdelta x), PEnd (ROk v), []).
+Proof. exact C08_refute.read_result_returned_at_once. Qed.
+Print Assumptions read_result_returned_at_once.
+
+(* Without it (f_lazyread = false): with anything pending in the outgoing BIO the reader goes to the flush point holding
+   its bytes; it cannot move while the send lock is held, and a cancellation delivered there ends the call without the
+   bytes (the SSL object has already consumed them). *)
+Theorem read_result_lost_behind_pending_ciphertext_refuted : forall (fl : flags) b s x v bt,
+  f_lazyread fl = false -> a_meth x = MRead -> a_arg x = expected_arg MRead b s -> a_out x = SOk v ->
+  wbio s ++ a_wdelta x <> [] ->
+  let s1 := set_wbio s (wbio s ++ a_wdelta x) in
+  step fl MRead b s PCall (LSsl x) = Some (s1, PFlush (KRet v), []) /\
+  (send_lock s = true -> go fl MRead s1 (PFlush (KRet v)) = None) /\
+  step fl MRead b s1 (PFlush (KRet v)) (LT (TCancel bt)) = Some (s1, PEnd (RCancel bt), []).
+Proof. exact read_result_lost_behind_pending_ciphertext. Qed.
+Print Assumptions read_result_lost_behind_pending_ciphertext_refuted.
 
 (* Local ordering facts that rule out "waiting for the peer while our own flight is still in the outgoing BIO",
    for every state and every answer: *)
@@ -227,7 +252,7 @@ Definition ex_trace : list slab :=
     SStep 2 (LSsl {| a_meth := MRead; a_arg := 10; a_out := SWantRead; a_wdelta := [] |});
     SStep 2 LGo; SStep 2 (LT TSent); SStep 1 LGo; SStep 2 LGo ].
 Example ex_accepts :
-  option_map (fun r => (map snd (snd r), wbio (y_sh (fst r)))) (sys_exec {| f_recheck := false; f_skiplock := false; f_close_flush := false |} sys0 ex_trace)
+  option_map (fun r => (map snd (snd r), wbio (y_sh (fst r)))) (sys_exec {| f_recheck := false; f_skiplock := false; f_close_flush := false; f_lazyread := false |} sys0 ex_trace)
   = Some ([ASend [7; 7]%N; ARecv; AFeed [9]%N; ASend [5; 5; 5; 5]%N; ARecv], []).
 Proof. vm_compute. reflexivity. Qed.
 Example ex_cipher_only :
